@@ -79,7 +79,17 @@ def run(ctx, rep):
                 # a static helper split out of an allowed function acts on its behalf: every caller (transitively) must be allowed
                 owners = _owners(P, f.name)
                 ok = bool(owners) and all(o in ALLOWED_SETTERS and name in ALLOWED_SETTERS[o] for o in owners)
-            rep.check(ok, 'R-C06-1', '%s sets %s' % (base(f.name), name), c.loc(), 'allowed' if ok else 'state %s assigned outside the functions allowed to produce it' % name, function=base(f.name), construct='block_state_set %s' % name)
+            det = 'allowed'
+            if not ok and name == 'CHG':
+                # CHG says "the parity does not cover the present data": assigning it can never make a stripe look synced.  What it must
+                # not do is keep a hash that describes something else than what the parity holds, so an unlisted site is accepted when it
+                # gives the block the INVALID ("unknown past") marker in the same basic block (state_rehash demoting pending REP blocks)
+                be = f.expr(c.ops[0])
+                mk = [x for x in f.calls('hash_invalid_set') if x.block == c.block and f.expr(x.ops[0]).lstrip('&').startswith(be + '->hash')]
+                if mk:
+                    ok = True
+                    det = 'not in the table, but CHG together with hash_invalid_set(%s->hash): only withdraws a claim' % be
+            rep.check(ok, 'R-C06-1', '%s sets %s' % (base(f.name), name), c.loc(), det if ok else 'state %s assigned outside the functions allowed to produce it' % name, function=base(f.name), construct='block_state_set %s' % name)
             rep.analysed(f)
             n += 1
     # direct stores into the state field outside block_state_set
